@@ -4,7 +4,7 @@
    every node's Loc being the span of its tokens by the relation itself). *)
 From Coq Require Import String List NArith.
 From GQL Require Import Base.Bytes Syntax.Lexer Syntax.Ast Syntax.Parser Syntax.Grammar
-  Proofs.SyntaxSound Proofs.SyntaxComplete Proofs.SyntaxLexer Proofs.SyntaxTerm.
+  Proofs.SyntaxSound Proofs.SyntaxComplete Proofs.SyntaxCompleteSDL Proofs.SyntaxLexer Proofs.SyntaxTerm.
 Import ListNotations.
 Open Scope N_scope.
 
@@ -20,26 +20,24 @@ Theorem C03_parse_sound : forall ts d, parse_tokens ts = Ok d -> Derives ts d.
 Proof. exact parse_tokens_sound. Qed.
 Print Assumptions C03_parse_sound.
 
-(* Completeness for documents of operation and fragment definitions: every derivable
-   token list is accepted, with exactly the derived AST. *)
-Theorem C03_parse_complete_partial : forall ts d, Derives ts d -> exec_only d = true -> parse_tokens ts = Ok d.
-Proof. exact parse_tokens_complete_exec. Qed.
-Print Assumptions C03_parse_complete_partial.
+(* Completeness, whole grammar (executable and type-system definitions, with and without
+   descriptions): every derivable token list is accepted, with exactly the derived AST. *)
+Theorem C03_parse_complete : forall ts d, Derives ts d -> parse_tokens ts = Ok d.
+Proof. exact parse_tokens_complete. Qed.
+Print Assumptions C03_parse_complete.
 
-(* Hence: on executable documents acceptance is derivability ... *)
-Theorem C03_accept_iff_partial : forall ts d, exec_only d = true -> (parse_tokens ts = Ok d <-> Derives ts d).
-Proof. intros ts d E. split; [apply parse_tokens_sound | intro D; apply parse_tokens_complete_exec; assumption]. Qed.
-Print Assumptions C03_accept_iff_partial.
+(* Hence acceptance is derivability ... *)
+Theorem C03_accept_iff : forall ts d, parse_tokens ts = Ok d <-> Derives ts d.
+Proof. intros ts d. split; [apply parse_tokens_sound | apply parse_tokens_complete]. Qed.
+Print Assumptions C03_accept_iff.
 
-(* ... and the grammar assigns at most one executable document to a token list. *)
-Theorem C03_unambiguous_partial : forall ts d1 d2, Derives ts d1 -> Derives ts d2 ->
-  exec_only d1 = true -> exec_only d2 = true -> d1 = d2.
+(* ... and the grammar assigns at most one document to a token list. *)
+Theorem C03_unambiguous : forall ts d1 d2, Derives ts d1 -> Derives ts d2 -> d1 = d2.
 Proof.
-  intros ts d1 d2 D1 D2 E1 E2.
-  pose proof (parse_tokens_complete_exec _ _ D1 E1) as H1.
-  pose proof (parse_tokens_complete_exec _ _ D2 E2) as H2. congruence.
+  intros ts d1 d2 D1 D2.
+  pose proof (parse_tokens_complete _ _ D1) as H1. pose proof (parse_tokens_complete _ _ D2) as H2. congruence.
 Qed.
-Print Assumptions C03_unambiguous_partial.
+Print Assumptions C03_unambiguous.
 
 (* The document's Loc runs from the start of the first token to the end of the EOF token
    (inner nodes: by the constructors of the grammar relations, see C03_parse_sound). *)
